@@ -627,3 +627,39 @@ def dep_closure(vfile):
                 if os.path.exists(p):
                     todo.append(p)
     return seen
+
+
+# ---------------------------------------------------------------- massive-mode instance (C10 / C11)
+
+def instance_obligation():
+    """Re-derive the pipeline's synchronisation structure from /repo's CURRENT source with the go/ast
+    inventory scanner and re-check the static obligations (Conc/InstanceCheck.v: every massive entry
+    point has an instance and it satisfies safe_params) against it.  Returns (ok, info)."""
+    info = {}
+    sc = scratch()
+    inv_dir = os.path.join(VERIF, "harness", "inventory")
+    exe = os.path.join(sc, "inventory")
+    with Lock("gobuild"):
+        rc, log = sh(["go", "build", "-o", exe, "."], cwd=inv_dir, env=GOENV, check=False, timeout=600)
+    if rc != 0:
+        return False, {"failure": "inventory scanner does not build: " + log[-800:]}
+    d = os.path.join(sc, "inst")
+    os.makedirs(d, exist_ok=True)
+    rc, out = sh([exe, REPO, os.path.join(d, "inventory.json")], check=False)
+    if rc != 0:
+        return False, {"failure": "inventory scanner failed on /repo: " + out[-800:]}
+    gen = out.replace("Conc/Instance.v", "InstanceNow.v")
+    open(os.path.join(d, "InstanceNow.v"), "w").write(gen)
+    chk = open(os.path.join(COQ, "theories", "Conc", "InstanceCheck.v")).read()
+    chk = chk.replace("From GT Require Import Conc.Pipeline Conc.Instance.", "From GT Require Import Conc.Pipeline.\nFrom GTN Require Import InstanceNow.")
+    open(os.path.join(d, "InstanceCheckNow.v"), "w").write(chk)
+    committed = open(os.path.join(COQ, "theories", "Conc", "Instance.v")).read()
+    info["inventory_equals_committed"] = (committed.split("\n", 1)[1] == out.split("\n", 1)[1])
+    info["inventory_functions"] = len(json.load(open(os.path.join(d, "inventory.json")))["functions"])
+    th = os.path.join(COQ, "theories")
+    for f in ("InstanceNow.v", "InstanceCheckNow.v"):
+        rc, o = sh("timeout 600 coqc -Q %s GT -Q %s GTN %s" % (th, d, os.path.join(d, f)), check=False)
+        if rc != 0:
+            info["failure"] = "static obligation on the current source fails in %s: %s" % (f, o[-1200:])
+            return False, info
+    return True, info
